@@ -70,7 +70,7 @@ def formats_for(i, per_prog):
 
 RULES = ("#ruledef\n{\n    nop => 0x00\n    hlt => 0x3`2\n    ld {v: u8} => 0x10 @ v\n"
          "    ld {v: u16} => 0x11 @ v\n    jmp {a} => 0x2 @ a`12\n    inc {r: reg} => 0b11 @ r\n"
-         "    tick => 0x5`3\n}\n#subruledef reg\n{\n    a => 0b00\n    b => 0b01\n}\n")
+         "    tick => 0x5`3\n    mark => 0`0\n}\n#subruledef reg\n{\n    a => 0b00\n    b => 0b01\n}\n")
 
 COMMENTS_ASCII = ["", "", "", " ; note", " ; x = 1, y | z", "\t; tab", "    ;; ld 9"]
 COMMENTS_WIDE = [" ; café", " ; über → résumé", " ; 日本"]
@@ -83,17 +83,28 @@ def own_program(rng, wide=False):
     known = []                                   # names usable in expressions
     com = COMMENTS_ASCII + (COMMENTS_WIDE * 2 if wide else [])
 
-    def body(n, depth_cap=3):
+    def body(n, unit=8, writable=True, depth_cap=3):
+        """n lines for a bank with the given address unit; labels (and `$`) need the
+        cursor on a unit boundary, so an `#align` goes before them after odd-sized items"""
         lines, depth = [], 0
+        state = {"dirty": False}
+
+        def aligned():
+            if state["dirty"]:
+                lines.append("    #align %d" % unit)
+                state["dirty"] = False
+
         for _ in range(n):
             c = rng.random()
             cm = rng.choice(com)
             if c < 0.18:
+                aligned()
                 nm = next(names)
                 depth = 1
                 known.append(nm)
                 lines.append("%s:%s" % (nm, cm))
             elif c < 0.32 and depth >= 1:
+                aligned()
                 d = rng.randrange(1, min(depth, depth_cap - 1) + 1)
                 depth = d + 1
                 lines.append("%s%s:%s" % ("." * d, next(names), cm))
@@ -102,6 +113,8 @@ def own_program(rng, wide=False):
                 attr = rng.choice(["", "", "#const ", "#const(noemit) ", "#const(noemit) "])
                 val = rng.choice(["5", "0x1234", "-3", "$", "1 == 1", "\"s\"", "0x123456789abcdef01"]
                                  + ([known[-1] + " + 1"] if known else []))
+                if val == "$":
+                    aligned()
                 if attr == "" and rng.random() < 0.3 and depth >= 1:
                     lines.append(".%s = %s%s" % (nm, val, cm))
                 else:
@@ -109,78 +122,83 @@ def own_program(rng, wide=False):
                     if val not in ("1 == 1", "\"s\""):
                         known.append(nm)
                     lines.append("%s%s = %s%s" % (attr, nm, val, cm))
+            elif not writable:
+                lines.append("    #res %d" % rng.choice([1, 2, 3]))
             elif c < 0.72:
-                ins = rng.choice(["nop", "hlt", "tick", "ld 5", "ld 0x1234", "ld  (2 + 3)", "inc a", "inc b",
+                ins = rng.choice(["nop", "hlt", "tick", "mark", "ld 5", "ld 0x1234", "ld  (2 + 3)", "inc a", "inc b",
                                   "jmp 0x123"] + (["jmp " + rng.choice(known), "ld " + rng.choice(known) + "`8"]
                                                   if known else []))
+                if ins in ("hlt", "tick") or ins.startswith("inc") or unit not in (1, 2, 4, 8):
+                    state["dirty"] = True
                 lines.append("    %s%s" % (ins, cm))
             elif c < 0.92:
                 w = rng.choice(["8", "8", "16", "4", "3", "1", "12", "32", ""])
                 k = rng.randrange(1, 4)
                 if w == "":
-                    vals = [rng.choice(["0x12", "0b101", "\"hi\"", "0x7`5", "(0x1 @ 0x2)"]) for _ in range(k)]
+                    vals = [rng.choice(["0x12", "0b101", "\"hi\"", "0x7`5", "(0x1 @ 0x2)", "\"a,b\"", "\"x;y\"", "0x5[3:0]"]) for _ in range(k)]
+                    state["dirty"] = True
                 else:
-                    vals = [rng.choice(["1", "0", "(1 + 2)", "0x%x" % rng.randrange(1 << min(int(w), 12)),
-                                        "$`%s" % w] + ([rng.choice(known) + "`" + w] if known else []))
+                    vals = [rng.choice(["1", "0", "(1 + 2)", "%d" % rng.randrange(1 << min(int(w), 12))]
+                                       + ([rng.choice(known) + "`" + w] if known else []))
                             for _ in range(k)]
+                    if int(w) % unit:
+                        state["dirty"] = True
                 lines.append("    #d%s %s%s" % (w, rng.choice([", ", ",", " , "]).join(vals), cm))
             elif c < 0.96:
                 lines.append("    #res %d" % rng.choice([1, 2, 3]))
             else:
-                lines.append("    #align %d" % rng.choice([8, 16]))
+                lines.append("    #align %d" % (unit * rng.choice([1, 2])))
+                state["dirty"] = False
         return lines
 
     shape = rng.choice(["plain", "banks", "rom", "bits"])
     head = [RULES]
-    banks = []
+    banks = []                                   # (name, unit, writable)
     if shape == "banks":
         outp = 0
         for i in range(rng.randrange(2, 4)):
-            size = rng.choice([8, 16, 32])
+            size = rng.choice([16, 32, 48])
             f = ["#bits 8", "#addr 0x%x" % rng.choice([0, 0x10, 0x100, 0x8000]), "#size %d" % size]
-            if i == 0 or rng.random() < 0.7:
+            writable = i == 0 or rng.random() < 0.7
+            if writable:
                 f.append("#outp 8 * %d" % outp)
                 outp += size + rng.choice([0, 0, 2])
-            banks.append("bk%d" % i)
+            banks.append(("bk%d" % i, 8, writable))
             head.append("#bankdef bk%d\n{\n    %s\n}\n" % (i, "\n    ".join(f)))
     elif shape == "rom":
         head.append("#bankdef hdr\n{\n    #bits 8\n    #addr 0\n    #size 16\n    #outp 0\n}\n")
         head.append("#bankdef prg\n{\n    #bits 8\n    #addr 0x8000\n    #size 64\n    #outp 8 * 16\n}\n")
         head.append("#bankdef ram\n{\n    #bits 8\n    #addr 0x200\n    #size 32\n}\n")
-        banks = ["hdr", "prg", "ram"]
+        banks = [("hdr", 8, True), ("prg", 8, True), ("ram", 8, False)]
     elif shape == "bits":
         unit = rng.choice([1, 3, 4, 16])
-        head.append("#bankdef w\n{\n    #bits %d\n    #addr 0x%x\n    #size 64\n    #outp %d\n}\n"
+        head.append("#bankdef w\n{\n    #bits %d\n    #addr 0x%x\n    #size 96\n    #outp %d\n}\n"
                     % (unit, rng.choice([0, 4]), rng.choice([0, 3, 8])))
-        head.append("#bankdef v\n{\n    #bits 8\n    #addr 0x40\n    #size 8\n    #outp %d\n}\n" % (64 * unit + 16))
-        banks = ["w", "v"]
+        head.append("#bankdef v\n{\n    #bits 8\n    #addr 0x40\n    #size 16\n    #outp %d\n}\n" % (96 * unit + 16))
+        banks = [("w", unit, True), ("v", 8, True)]
     main = list(head)
     incs = rng.choice([0, 0, 1, 2])
+    inc_unit, inc_writable = 8, True
     if banks:
         order = list(banks)
         rng.shuffle(order)
-        for b in order:
+        for b, unit, writable in order:
             main.append("#bank %s\n" % b)
-            if b == "ram" or (shape == "banks" and rng.random() < 0.2):
-                # only labels and reservations fit a bank without output
-                ls = []
-                for _ in range(rng.randrange(1, 4)):
-                    nm = next(names)
-                    known.append(nm)
-                    ls += ["%s:" % nm, "    #res %d" % rng.randrange(1, 4)]
-                    if rng.random() < 0.4:
-                        ls += [".%s:" % next(names), "    #res 1"]
-                main.append("\n".join(ls) + "\n")
-            elif b == "hdr":
+            if b == "hdr":
                 main.append("rom_magic:\n    #d8 0x4e, 0x45, 0x53, 0x1a\nrom_flags:\n    #d8 1, 0\n")
             else:
-                main.append("\n".join(body(rng.randrange(2, 7))) + "\n")
+                main.append("\n".join(body(rng.randrange(2, 7), unit, writable)) + "\n")
+        inc_unit, inc_writable = order[-1][1], order[-1][2]
     else:
         main.append("\n".join(body(rng.randrange(3, 9))) + "\n")
     for k in range(incs):
         fname = rng.choice(["inc%d.asm", "lib/part%d.asm"]) % k
-        files[fname] = "\n".join(body(rng.randrange(1, 5))) + ("\n" if rng.random() < 0.8 else "")
-        main.insert(rng.randrange(len(head) + (1 if banks else 0), len(main) + 1), "#include \"%s\"\n" % fname)
+        # included at the end: its items continue the last bank (an `#align` first, the cursor may be anywhere)
+        files[fname] = "\n".join(["    #align %d" % inc_unit] + body(rng.randrange(1, 5), inc_unit, inc_writable)) \
+            + ("\n" if rng.random() < 0.8 else "")
+        main.append("    #align %d\n#include \"%s\"\n" % (inc_unit, fname))
+        if rng.random() < 0.6:                   # and the including file goes on after it
+            main.append("    #align %d\n" % inc_unit + "\n".join(body(rng.randrange(1, 4), inc_unit, inc_writable)) + "\n")
     files["main.asm"] = "".join(main)
     return {"files": files, "roots": ["main.asm"], "kind": "own-" + shape + ("-wide" if wide else "")}
 
@@ -308,10 +326,16 @@ class _Collect:
 def judge_parallel(ck, events, jvms, weight, tag="listing"):
     """Shards the events by volume and runs TraceListing on the shards in up to
     `jvms` TLC processes.  Returns {case: [failed check names]}."""
+    def weigh(e):
+        return len(e["text"]) + 30 * len(e["items"]) + sum(len(f["text"]) for f in e["files"]) + 200
+
+    total = sum(weigh(e) for e in events)
+    weight = max(weight, total // 200)                 # at most ~200 TLC runs
+    weight = min(weight, max(total // jvms + 1, 100000))   # and all JVMs busy when there is enough work
     shards, cur, w = [], [], 0
     for e in events:
         cur.append(e)
-        w += len(e["text"]) + 30 * len(e["items"]) + sum(len(f["text"]) for f in e["files"]) + 200
+        w += weigh(e)
         if w >= weight:
             shards.append(cur)
             cur, w = [], 0
@@ -357,7 +381,7 @@ def canaries(rng, events, n):
             and any(it["kind"] == "w" and it["size"] > 0 for it in e["items"])]
     for e in rng.sample(pool, min(len(pool), n)):
         c = dict(e)
-        how = rng.choice(["out-bit", "drop-row", "move-item", "addr"])
+        how = rng.choice(["drop-row", "move-item", "addr"] + ([] if e["fmt"] == "addrspan" else ["out-bit", "out-bit"]))
         if how == "out-bit":
             # flip an output bit inside a written item: the data shown no longer matches
             its = [it for it in e["items"] if it["kind"] == "w" and it["size"] > 0]
@@ -389,23 +413,26 @@ def canaries(rng, events, n):
         c["case"] = CANARY + e["case"]
         c["how"] = how
         out.append(c)
-    for e in rng.sample([e for e in events if e["fmt"] in ("symbols", "mesen-mlb") and e["text"]],
-                        min(n // 2, len([e for e in events if e["fmt"] in ("symbols", "mesen-mlb") and e["text"]]))):
+    tables = [e for e in events if e["fmt"] in ("symbols", "mesen-mlb") and e["text"]]
+    for e in rng.sample(tables, min(n // 2, len(tables))):
         c = dict(e)
-        syms = [dict(s) for s in e["symbols"]]
-        shown = [j for j, s in enumerate(syms) if s["int"] and not s["noemit"]
-                 and (e["fmt"] == "symbols" or s["kind"] == "Label")]
-        if not shown:
-            continue
-        j = rng.choice(shown)
-        if rng.random() < 0.5:
-            syms[j]["noemit"] = True                     # the table lists a suppressed symbol
-            c["how"] = "suppress"
+        if e["fmt"] == "mesen-mlb":
+            # the first row states another number (its first digit follows "P:" / "R:")
+            t = list(e["text"])
+            t[2] = 49 if t[2] != 49 else 50
+            c["text"] = t
+            c["how"] = "mesen-digit"
         else:
-            syms[j]["hex"] = syms[j]["hex"] + [1]        # another final value
-            syms[j]["v"] = syms[j]["v"] * 16 + 1
-            c["how"] = "value"
-        c["symbols"] = syms
+            syms = [dict(s) for s in e["symbols"]]
+            shown = [j for j, s in enumerate(syms) if s["int"] and not s["noemit"]]
+            j = rng.choice(shown)
+            if rng.random() < 0.5:
+                syms[j]["noemit"] = True                     # the table lists a suppressed symbol
+                c["how"] = "suppress"
+            else:
+                syms[j]["hex"] = syms[j]["hex"] + [1]        # another final value
+                c["how"] = "value"
+            c["symbols"] = syms
         c["case"] = CANARY + e["case"]
         out.append(c)
     return out
@@ -419,7 +446,7 @@ CANARY = 1 << 24
 def collect_programs(ck, quick):
     rng = random.Random(ck.seed * 104729 + 12)
     progs = []
-    n_own, n_wide, n_gen, n_lay = (70, 6, 45, 160) if quick else (1500, 60, 900, 3000)
+    n_own, n_wide, n_gen, n_lay = (2500, 30, 1200, 5000) if quick else (40000, 300, 20000, 90000)
     for _ in range(n_own):
         progs.append(own_program(rng))
     for _ in range(n_wide):
@@ -431,20 +458,17 @@ def collect_programs(ck, quick):
     return progs
 
 
-def run_c12(ck):
-    quick = ck.tier == "quick"
-    progs = collect_programs(ck, quick)
-    per_prog = 3 if quick else 4
-    fmts = [formats_for(i, per_prog) for i in range(len(progs))]
+CHUNK = 6000          # programs assembled, converted and judged at a time (bounds memory)
+STRIDE = 32
+
+
+def run_chunk(ck, progs, first, per_prog, ncanaries, stats, seen_params, groups):
+    """assembles progs (numbered from `first`), judges their listings, files the rejections under groups"""
+    fmts = [formats_for(first + i, per_prog) for i in range(len(progs))]
     jobs = [{"mode": "asm", "files": p["files"], "roots": p["roots"], "formats": [fstr(f) for f in fmts[i]],
              "want": {"messages": False, "events": True, "spans": True}} for i, p in enumerate(progs)]
     results = common.run_jobs(jobs, ck.wd + "/jobs")
-
-    STRIDE = 32
     events, owner = [], {}
-    stats = {"programs": len(progs), "assembled": 0, "not_assembled": 0, "unjudged": 0, "mesen_skipped_wide": 0,
-             "by_kind": {}}
-    seen_params = set()
     for i, (p, r) in enumerate(zip(progs, results)):
         if r.get("crash") or r.get("panic"):
             msg = str(r.get("panic") or r.get("crash"))
@@ -461,7 +485,7 @@ def run_c12(ck):
             continue
         stats["assembled"] += 1
         stats["by_kind"][p["kind"]] = stats["by_kind"].get(p["kind"], 0) + 1
-        evs, skipped = events_of(i * STRIDE, facts, r, fmts[i])
+        evs, skipped = events_of((first + i) * STRIDE, facts, r, fmts[i])
         stats["mesen_skipped_wide"] += len(skipped)
         ck.evaluations += len(evs)
         shown = [it for it in facts["items"] if it["kind"] in ("w", "l")]
@@ -476,38 +500,54 @@ def run_c12(ck):
             f0 = next(f for f in r["formatted"] if f["format"].startswith("annotated"))
             ck.sample({"kind": p["kind"], "source": p["files"]["main.asm"][-400:], "format": f0["format"],
                        "text": bytes(f0["bytes"]).decode("utf-8")[:500]}, limit=4)
-    if stats["assembled"] < len(progs) // 5:
-        raise common.ToolError("only %d of %d generated programs assembled" % (stats["assembled"], len(progs)))
+    del results
 
-    rng = random.Random(ck.seed * 31 + 5)
-    cans = canaries(rng, events, 40 if quick else 400)
-    failed = judge_parallel(ck, events + cans, jvms=8, weight=(len(events) * 1500) // 8 + 40000 if quick else 1200000)
+    rng = random.Random(ck.seed * 31 + 5 + first)
+    cans = canaries(rng, events, ncanaries)
+    failed = judge_parallel(ck, events + cans, jvms=8, weight=3000000, tag="c%d_" % first)
     missed = [(c["case"] - CANARY, c["how"]) for c in cans if c["case"] not in failed]
     if missed:
         raise common.ToolError("the specification accepted %d corrupted listings %s: it does not bind"
                                % (len(missed), missed[:10]))
-    ck.extra["canaries_rejected"] = len(cans)
-    failed = {c: t for c, t in failed.items() if c < CANARY}
+    stats["canaries_rejected"] += len(cans)
     ck.traces += len(events)
 
     by_case = {e["case"]: e for e in events}
-    groups = {}
-    for case in sorted(failed):
-        e = by_case[case]
+    for case in sorted(c for c in failed if c < CANARY):
+        e, i = by_case[case], owner[case]
         wide = any(c > 127 for f in e["files"] for c in f["text"])
         for tag in sorted(set(failed[case])):
             sig = "TraceListing:%s:%s" % (e["fmt"], tag) + (":non-ascii-source" if wide and tag == "source" else "")
-            groups.setdefault(sig, []).append(case)
-    ck.extra["rejections_by_signature"] = {k: len(v) for k, v in groups.items()}
+            g = groups.setdefault(sig, {"count": 0, "best": []})
+            g["count"] += 1
+            # keep the two shortest listings per signature; the rest are counted
+            g["best"] = sorted(g["best"] + [(len(e["text"]), case, e, progs[i], jobs[i])], key=lambda x: x[:2])[:2]
+
+
+def run_c12(ck):
+    quick = ck.tier == "quick"
+    progs = collect_programs(ck, quick)
+    per_prog = 3 if quick else 4
+    stats = {"programs": len(progs), "assembled": 0, "not_assembled": 0, "unjudged": 0, "mesen_skipped_wide": 0,
+             "canaries_rejected": 0, "by_kind": {}}
+    seen_params, groups = set(), {}
+    rng = random.Random(ck.seed)
+    rng.shuffle(progs)                            # every chunk holds every kind of program
+    ncan = 60 if quick else 600
+    for first in range(0, len(progs), CHUNK):
+        part = progs[first:first + CHUNK]
+        run_chunk(ck, part, first, per_prog, max(12, ncan * len(part) // len(progs)), stats, seen_params, groups)
+    if stats["assembled"] < len(progs) // 5:
+        raise common.ToolError("only %d of %d generated programs assembled" % (stats["assembled"], len(progs)))
+
+    ck.extra["rejections_by_signature"] = {k: g["count"] for k, g in groups.items()}
     for sig in sorted(groups):
-        cases = sorted(groups[sig], key=lambda c: (len(by_case[c]["text"]), c))
-        for case in cases[:2]:                       # the shortest listings; the rest are counted
-            e, i = by_case[case], owner[case]
+        for _, case, e, prog, job in groups[sig]["best"]:
             ck.violation(sig, {"format": fstr((e["fmt"], e["base"], e["group"])), "verdict": sig.split(":")[2],
-                               "kind": progs[i]["kind"], "same_signature": len(cases),
-                               "files": {k: v[:700] for k, v in progs[i]["files"].items()},
+                               "kind": prog["kind"], "same_signature": groups[sig]["count"],
+                               "files": {k: v[:700] for k, v in prog["files"].items()},
                                "text": "".join(chr(c) for c in e["text"])[:900]},
-                         {"job": jobs[i], "event": e, "spec": "TraceListing"})
+                         {"job": job, "event": e, "spec": "TraceListing"})
     ck.extra["listing_cases"] = stats
     ck.extra["parameter_pairs_seen"] = {"annotated": len([1 for f in seen_params if f[0] == "annotated" and f[1] and f[2]]),
                                         "tcgame": len([1 for f in seen_params if f[0] == "tcgame" and f[1] and f[2]])}
